@@ -8,9 +8,14 @@
 package c05
 
 import (
+	"encoding/json"
 	"fmt"
 	"math"
+	"os"
+	"os/exec"
+	"path/filepath"
 	"runtime"
+	"strconv"
 
 	"github.com/flowmatters/openwater-core/data"
 	"github.com/flowmatters/openwater-core/sim"
@@ -117,8 +122,28 @@ func run(k kase, r *vf.Rec) {
 	model := k.tbl.Model
 	// sequential reference: every cell alone
 	ref := make([]mrun.Result, k.N)
+	if freshRefs == nil {
+		freshRefs = map[string][]uint64{}
+		if b, err := os.ReadFile(refsPath()); err == nil {
+			json.Unmarshal(b, &freshRefs)
+		}
+	}
 	for c := 0; c < k.N; c++ {
 		ref[c] = mrun.RunCell(model, k.cellParams(c%k.P), k.inputs(c%k.B), T, nil)
+		key := refKey{model, k.group[(c%k.P)%len(k.group)], c % k.B}.String()
+		if fresh, ok := freshRefs[key]; ok {
+			got := bitsOf(ref[c])
+			same := len(got) == len(fresh)
+			for i := 0; same && i < len(got); i++ {
+				same = got[i] == fresh[i]
+			}
+			if !same {
+				r.Failf("C05/Run/"+model+"/sequential-single-cell-result-depends-on-process-history", map[string]interface{}{"cell": c, "reference_key": key, "outputs_in_this_process": ref[c].Out},
+					"%s: the single-cell run of cell %d (parameter vector %d) in this process differs from the same run done first in a fresh process", model, c, k.group[(c%k.P)%len(k.group)])
+				return
+			}
+			r.Count("references_confirmed_against_fresh_process", 1)
+		}
 	}
 	var w *world
 	h := &sched.Harness{
@@ -174,6 +199,115 @@ func run(k kase, r *vf.Rec) {
 	}
 }
 
+// allTables: the catalogue tables, Storage with one more vector.
+func allTables() []tables.Table {
+	var out []tables.Table
+	for _, t := range tables.All() {
+		if t.Model == "Storage" {
+			// a table tabulated from full to empty (descending volumes): the kernel treats it deterministically, and a
+			// shared parameter set must stay read-only whatever the table looks like
+			t.Params = append(append([][]float64{}, t.Params...), tables.StorageParams(86400, []float64{10, 5, 0}, []float64{3e6, 1e6, 0}, []float64{0, 2e5, 4e5}, []float64{0, 0, 0}, []float64{0, 20, 80}))
+		}
+		out = append(out, t)
+	}
+	return out
+}
+
+// ---- sequential references computed in FRESH processes: "the sequential cell-by-cell result" must not depend on
+// what else ran in the process before (a table cached by the first cell would make the in-process reference and
+// the vectorised run agree with each other and both be wrong)
+
+type refKey struct {
+	Model      string
+	Param, Cel int
+}
+
+func (k refKey) String() string { return fmt.Sprintf("%s/%d/%d", k.Model, k.Param, k.Cel) }
+
+func refsPath() string { return filepath.Join(vf.Root, ".build", "c05-refs.json") }
+
+var freshRefs map[string][]uint64
+
+func bitsOf(r mrun.Result) []uint64 {
+	var out []uint64
+	for _, o := range r.Out {
+		for _, v := range o {
+			out = append(out, math.Float64bits(v))
+		}
+	}
+	out = append(out, 0xfeedface)
+	for _, v := range r.States {
+		out = append(out, math.Float64bits(v))
+	}
+	return out
+}
+
+func tableOf(model string) tables.Table {
+	for _, t := range allTables() {
+		if t.Model == model {
+			return t
+		}
+	}
+	panic("no table for " + model)
+}
+
+// sub-command: --ref model paramIndex cell  -> the bits of that single-cell run, first thing in this process
+func sub(args []string) bool {
+	if len(args) >= 4 && args[0] == "--ref" {
+		pi, _ := strconv.Atoi(args[2])
+		ci, _ := strconv.Atoi(args[3])
+		t := tableOf(args[1])
+		k := kase{tbl: t}
+		res := mrun.RunCell(t.Model, t.Params[pi], k.inputs(ci), T, nil)
+		b, _ := json.Marshal(bitsOf(res))
+		fmt.Fprintln(vf.Stdout, string(b))
+		return true
+	}
+	return false
+}
+
+func pre(tier string, r *vf.Rec) {
+	self, _ := os.Executable()
+	need := map[refKey]bool{}
+	for _, k := range build(tier).cases {
+		for c := 0; c < k.N; c++ {
+			need[refKey{k.tbl.Model, k.group[(c%k.P)%len(k.group)], c % k.B}] = true
+		}
+	}
+	type res struct {
+		key  string
+		bits []uint64
+	}
+	out := make(chan res, len(need))
+	sem := make(chan bool, 14)
+	for key := range need {
+		key := key
+		sem <- true
+		go func() {
+			defer func() { <-sem }()
+			b, err := exec.Command(self, "C05", "--ref", key.Model, strconv.Itoa(key.Param), strconv.Itoa(key.Cel)).Output()
+			var v []uint64
+			if err == nil && json.Unmarshal(b, &v) == nil {
+				out <- res{key.String(), v}
+			} else {
+				out <- res{key.String(), nil}
+			}
+		}()
+	}
+	all := map[string][]uint64{}
+	for range need {
+		x := <-out
+		if x.bits != nil {
+			all[x.key] = x.bits
+		}
+	}
+	r.Count("fresh_process_single_cell_references", int64(len(all)))
+	r.Count("fresh_process_references_unavailable", int64(len(need)-len(all)))
+	os.MkdirAll(filepath.Join(vf.Root, ".build"), 0755)
+	b, _ := json.Marshal(all)
+	os.WriteFile(refsPath(), b, 0644)
+}
+
 type enum struct{ cases []kase }
 
 func (e *enum) N() int64               { return int64(len(e.cases)) }
@@ -188,15 +322,14 @@ func (e *enum) CrashSig(i int64, tail string) (string, string) {
 
 func build(tier string) *enum {
 	e := &enum{}
-	for _, t := range tables.All() {
-		if t.Model == "Storage" {
-			// a table tabulated from full to empty (descending volumes): the kernel treats it deterministically, and a
-			// shared parameter set must stay read-only whatever the table looks like
-			t.Params = append(append([][]float64{}, t.Params...), tables.StorageParams(86400, []float64{10, 5, 0}, []float64{3e6, 1e6, 0}, []float64{0, 2e5, 4e5}, []float64{0, 0, 0}, []float64{0, 20, 80}))
-		}
+	for _, t := range allTables() {
 		for _, g := range groupsFor(t) {
 			e.cases = append(e.cases, kase{t, g, 2, -1, 2, 2, 0}, kase{t, g, 2, -1, 1, 1, 0})
-			if tier == "thorough" {
+			if tier == "thorough" && t.Cost >= 3 {
+				// a kernel that takes milliseconds per cell (Storage's sub-stepping, -race build): smaller bounds
+				e.cases = append(e.cases, kase{t, g, 3, 1, 3, 3, 0}, kase{t, g, 3, 1, 2, 1, 0}, kase{t, g, 4, 0, 3, 2, 0})
+				e.cases = append(e.cases, kase{t, g, 3, 0, 3, 1, 2})
+			} else if tier == "thorough" {
 				e.cases = append(e.cases, kase{t, g, 3, 3, 3, 3, 0}, kase{t, g, 3, 3, 2, 1, 0}, kase{t, g, 4, 2, 3, 2, 0})
 				e.cases = append(e.cases, kase{t, g, 4, 0, 2, 2, 3}, kase{t, g, 3, 1, 3, 1, 2})
 			} else {
@@ -211,8 +344,8 @@ func build(tier string) *enum {
 
 func Spec() *vf.Check {
 	return &vf.Check{
-		ID: "C05", Level: "model_checking", BlockSize: 1, HangSeconds: 3600,
-		Rule: "for every catalogued model and N = 2 cells (all interleavings; one parameter set / input block per cell, and a single shared one), N = 3 (quick: <= 1 preemption, 2 parameter sets, 1 shared input block; thorough: <= 3 preemptions, both layouts) and N = 4 (thorough, <= 2 preemptions, 3 sets / 2 blocks); with GOMAXPROCS set to fewer processors than cells: (cells, processors) = (3,2) (quick: every order of the forced switches, no preemptions; thorough: <= 1 preemption, and (4,3) without preemptions): the rewritten generated Run executes under the controlled scheduler with scheduling points at spawn, channel send/receive and thread exit; the binary is built with -race and the scheduler's hand-offs are hidden from the race detector, so every explored schedule is checked for unsynchronised conflicting accesses; outputs and final states of every schedule are compared bit-for-bit with the sequential cell-by-cell result; deadlocks are reported. " +
+		ID: "C05", Level: "model_checking", BlockSize: 1, HangSeconds: 3600, Sub: sub, Pre: pre,
+		Rule: "for every catalogued model and N = 2 cells (all interleavings; one parameter set / input block per cell, and a single shared one), N = 3 (quick: <= 1 preemption, 2 parameter sets, 1 shared input block; thorough: <= 3 preemptions, both layouts) and N = 4 (thorough, <= 2 preemptions, 3 sets / 2 blocks; for Storage, whose kernel takes milliseconds per cell under -race: <= 1 preemption with 3 cells, none with 4); with GOMAXPROCS set to fewer processors than cells: (cells, processors) = (3,2) (quick: every order of the forced switches, no preemptions; thorough: <= 1 preemption, and (4,3) without preemptions): the rewritten generated Run executes under the controlled scheduler with scheduling points at spawn, channel send/receive and thread exit; the binary is built with -race and the scheduler's hand-offs are hidden from the race detector, so every explored schedule is checked for unsynchronised conflicting accesses; outputs and final states of every schedule are compared bit-for-bit with the sequential cell-by-cell result, which is itself confirmed against the same single-cell run done first in a fresh process; deadlocks are reported. " +
 			"The ow-sim generation part reuses the C07 harness (see C07).",
 		Assumptions: []string{"the cooperative scheduler runs one logical thread at a time (sequential consistency between scheduling points); weak-memory reorderings are not modelled",
 			"the race detector keeps a bounded access history per memory word; an unsynchronised pair separated by many later accesses to the same word can be missed within one schedule"},
